@@ -32,6 +32,7 @@ import (
 	"fmt"
 	"math/big"
 	"sync"
+	"time"
 
 	"golang.org/x/crypto/bn256"
 	ref "verif/ref/bn256ref"
@@ -82,6 +83,7 @@ type ops struct {
 	ident []byte
 
 	alias aliasOps
+	zero  func() any // the zero value of the element type (usable as a receiver only)
 	order *big.Int
 	reps  []ctor // further cheap representations of element i (used as operands everywhere)
 
@@ -134,6 +136,8 @@ func run(c *vf.Ctx) {
 	c.Rule("full grids (see header): 8-element sets per group (12 thorough) x all ordered pairs x operand forms and all triples for the group laws, " +
 		"scalar grid {0,1,2,n-1,n,n+1,2n-1,2^256-1,-1,-2,-s, seeded 256-bit and 64-bit classes} x every element x form for scalar multiplication, all scalar pairs for distributivity and (non-negative ones) bilinearity, " +
 		"16 points per group x every non-empty coordinate subset x {+kp, +1, zeroed} encodings, every length 0..400; " +
+		"one element object per group driven through EVERY sequence of 2 (thorough 3; G1 also 3 in quick) in-place operations {ScalarBaseMult(3/s3), Add(e,x), Add(x,e), Add(e,e), Neg(e), Neg(x), ScalarMult(e,2/-3/n), ScalarMult(x,5), Unmarshal(s2/identity), Marshal} from 4 start states, observed after every step, then used twice as Pair operand; " +
+		"caller-owned buffers and scalars for every element x scalar; " +
 		"non-trivial = distinct (operation, operands, forms) case / distinct mutated encoding; " +
 		"oracle = affine math/big model (ref/bn256ref) for every G1/G2/GT operation result byte for byte, the group laws on the real outputs, the strict decoder of the model for Unmarshal")
 	c.Assume("math/big is correct")
@@ -226,7 +230,9 @@ func run(c *vf.Ctx) {
 			addInto:  func(d, a, b any) any { return d.(*bn256.G1).Add(a.(*bn256.G1), b.(*bn256.G1)) },
 			negInto:  func(d, a any) any { return d.(*bn256.G1).Neg(a.(*bn256.G1)) },
 			smulInto: func(d, a any, k *big.Int) any { return d.(*bn256.G1).ScalarMult(a.(*bn256.G1), k) },
+			sbmInto:  func(d any, k *big.Int) any { return d.(*bn256.G1).ScalarBaseMult(k) },
 		},
+		zero: func() any { return new(bn256.G1) },
 	}
 
 	// ---- G2 ops --------------------------------------------------------------------------
@@ -260,7 +266,9 @@ func run(c *vf.Ctx) {
 		alias: aliasOps{
 			addInto:  func(d, a, b any) any { return d.(*bn256.G2).Add(a.(*bn256.G2), b.(*bn256.G2)) },
 			smulInto: func(d, a any, k *big.Int) any { return d.(*bn256.G2).ScalarMult(a.(*bn256.G2), k) },
+			sbmInto:  func(d any, k *big.Int) any { return d.(*bn256.G2).ScalarBaseMult(k) },
 		},
+		zero: func() any { return new(bn256.G2) },
 	}
 
 	// ---- GT ops --------------------------------------------------------------------------
@@ -310,6 +318,7 @@ func run(c *vf.Ctx) {
 			negInto:  func(d, a any) any { return d.(*bn256.GT).Neg(a.(*bn256.GT)) },
 			smulInto: func(d, a any, k *big.Int) any { return d.(*bn256.GT).ScalarMult(a.(*bn256.GT), k) },
 		},
+		zero: func() any { return new(bn256.GT) },
 	}
 
 	for _, g := range []*ops{g1, g2, gt} {
@@ -317,6 +326,15 @@ func run(c *vf.Ctx) {
 		groupLaws(c, g, scalars)
 		aliasing(c, g)
 	}
+	tH := time.Now()
+	history(c, g1, gt, s1, s2, s3, func(e any) *bn256.GT { return bn256.Pair(e.(*bn256.G1), new(bn256.G2).ScalarBaseMult(one)) })
+	history(c, g2, gt, s1, s2, s3, func(e any) *bn256.GT { return bn256.Pair(new(bn256.G1).ScalarBaseMult(one), e.(*bn256.G2)) })
+	history(c, gt, gt, s1, s2, s3, nil)
+	tO := time.Now()
+	for _, g := range []*ops{g1, g2, gt} {
+		ownership(c, g, scalars)
+	}
+	c.Set("harden_wall_s", map[string]float64{"history": tO.Sub(tH).Seconds(), "ownership": time.Since(tO).Seconds()})
 	pairing(c, scalars, g2gen, s1, s2)
 	pairingReps(c, g2gen, s1, s2)
 	encodings(c, g2gen)
